@@ -72,6 +72,19 @@ pub(crate) fn set_fast_load_flag(e: &mut Emulator<VHost>, v: bool) {
 
 // ---- end shared helpers -----------------------------------------------------------------------
 
+// ---- tape-agent helpers ----------------------------------------------------------------------
+
+/// the private fast-load event handler of `emulate_frames`
+pub(crate) fn fast_load_event(e: &mut Emulator<VHost>) -> Result<()> {
+    e.process_fast_load_event()
+}
+
+pub(crate) fn fast_load_flag(e: &Emulator<VHost>) -> bool {
+    e.fast_load
+}
+
+// ---- end tape-agent helpers ------------------------------------------------------------------
+
 // =============================================================================================
 // C05 / C16 — the frame loop with the CPU abstracted to "some instruction took d T-states"
 // =============================================================================================
